@@ -222,6 +222,7 @@ def fuzz_leg(chk, cov, cdir):
     cov["fuzz_executions"] = execs
     cov["fuzz_edge_coverage"] = covmax
     arts = [a for a in os.listdir(art)]
+    env["VERIF_PRINT_CLASS"] = "1"
     for a in arts[:10]:
         # triage: re-run the artifact through the monitor-free reproducer to get the report
         r = subprocess.run([exe, os.path.join(art, a)], env=env, stdout=subprocess.PIPE, stderr=subprocess.STDOUT, text=True, errors="replace", timeout=120)
